@@ -402,6 +402,33 @@ def rule_d(ctx, out):
                 else:
                     out.bad(f"{f.name}:changes-truth-value:{_shape(combo)}", f"{f.name}({conn!r}) = {res!r}: different truth table", where(f),
                             {"input": repr(conn), "output": repr(res)})
+    # integer-sorted equality: literals are distinct objects of equal / different value (as the encoder creates them), x is an integer term
+    f_eq = simps.get("=")
+    if f_eq is None:
+        raise AnalysisError("no simplifier registered for \"=\"")
+    x = Atom("x")
+    consts = [0, 1, 5, 256, 257, 1000, 2 ** 256 - 1]
+    int_cases = [(a, int(str(b))) for a in consts for b in consts] + [(x, x), (x, 5), (5, x), (x, Atom("y"))]
+    for a, b in int_cases:
+        conn = mk("=", a, b)
+        try:
+            res = run(f_eq, conn)
+        except Raised as e:
+            out.bad(f"{f_eq.name}:raises:int", f"{f_eq.name} raises {e.what} on {conn!r}", where(f_eq))
+            continue
+        except Unsupported as e:
+            raise AnalysisError(f"{f_eq.name}: cannot evaluate abstractly on {conn!r}: {e}")
+        if isinstance(a, int) and isinstance(b, int):
+            good = (res is conn) or (isinstance(res, bool) and res == (a == b)) or (isinstance(res, FakeConn) and res == conn)
+        elif a == b:
+            good = res is True or res is conn or (isinstance(res, FakeConn) and res == conn)
+        else:
+            good = res is conn or (isinstance(res, FakeConn) and res == conn)
+        kind = "equal-literals" if isinstance(a, int) and isinstance(b, int) and a == b else "different-literals" if isinstance(a, int) and isinstance(b, int) else "terms"
+        if good:
+            out.ok({"simplifier": f_eq.name, "input": repr(conn), "output": repr(res)})
+        else:
+            out.bad(f"{f_eq.name}:changes-truth-value:int:{kind}", f"{f_eq.name}({conn!r}) = {res!r}", where(f_eq), {"input": repr(conn), "output": repr(res)})
     # informational: bool/int literal folding in _simplify_equal
     out.info["literal_typing"] = "_simplify_equal folds a bool/int literal pair with Python == (add_eq(True, 1) -> True); the unsimplified formula is ill-sorted"
 
@@ -416,7 +443,23 @@ def _shape(combo):
     return ",".join(s(x) for x in combo)
 
 
+def rule_e(ctx, out):
+    """Literals and formulas are compared by value.  `a is b` between two integer literals is true only for the same object (CPython
+    shares ints in -5..256 only), so a simplifier that folds `(= c c')` with `is` folds equal constants to false."""
+    from ..core.idioms import identity_comparisons
+    n = 0
+    for f, c, ok in identity_comparisons(ctx, ("smt_encoding.",)):
+        n += 1
+        if ok:
+            out.ok({"function": f.qual, "identity_test": short(c, 60)})
+        else:
+            out.bad(f"identity-comparison-of-values:{f.name}:{norm(c)}", f"{f.qual}: `{short(c, 70)}` compares two values by object identity", where(f, c))
+    if n < 20:
+        raise AnalysisError(f"only {n} identity comparisons found in smt_encoding")
+
+
 RULES = [
+    ("C18.e", "literals and formulas are compared by value, not identity", 20, rule_e),
     ("C18.a", "registry, wrappers and renderer agree", 30, rule_a),
     ("C18.b", "commutativity flags and structural equality", 9, rule_b),
     ("C18.c", "no empty n-ary connector", 3, rule_c),
